@@ -55,7 +55,7 @@ Lemma scR_nth (l : valueR) : scR l = nth 0 l 0.
 Proof. destruct l; reflexivity. Qed.
 
 Lemma vzero_nth (v : varR) j : nth j (vzero Rops v) 0 = 0.
-Proof. unfold vzero. destruct (v_kind v); destruct j as [|[|[|[|j]]]]; reflexivity. Qed.
+Proof. unfold vzero. destruct (v_kind v); destruct j as [|[|[|[|[|j]]]]]; reflexivity. Qed.
 
 Lemma fzero_nth (vs : list varR) k j : nth j (fzero Rops vs k) 0 = 0.
 Proof. unfold fzero. destruct (nth_error vs k); [apply vzero_nth|destruct j; reflexivity]. Qed.
@@ -268,6 +268,28 @@ Section Refine.
       + intros v Hin. apply margin_covers; [exact Hsig|exact Hvars|exact Hin].
   Qed.
 
+  Lemma eb_scale_R i : eb_scale Rops c i = eb_factor c i.
+  Proof.
+    unfold eb_scale, eb_factor. destruct (c_eb c); [|reflexivity]. cbn [nmul ndiv nadd nsub n1 nofZ Rops].
+    destruct (i_it i <? c_eb_equil c)%Z; cbv zeta; rewrite ?Rmult_1_l; reflexivity.
+  Qed.
+
+  (* the weight of the hill added by update_bias *)
+  Lemma deposit_weight m s i : Inv m s -> adm c g0 (i_x i) ->
+    nmul Rops (c_weight c)
+      (if c_wt c
+       then nmul Rops (eb_scale Rops c i)
+              (nexp Rops (ndiv Rops (nmul Rops (nneg Rops (n1 Rops)) (wt_energy_here Rops c m (i_x i)))
+                                    (nmul Rops (c_bias_temp c) (c_kb c))))
+       else eb_scale Rops c i)
+    = spec_height c s i.
+  Proof.
+    intros HI Ha. unfold spec_height, wt_energy_here. rewrite eb_scale_R. destruct (c_wt c).
+    - rewrite (energy_spec m s (i_x i) HI Ha). cbn [nmul n1 nexp ndiv nneg Rops].
+      f_equal. f_equal. f_equal. unfold Rdiv. ring.
+    - cbn [nmul Rops]. ring.
+  Qed.
+
   Lemma deposit_inv m s i : Inv m s -> adm c g0 (i_x i) ->
     (c_use_grids c = true -> All3 (fun v b' xv => buffer_ok c v b' (scR xv)) vs (s_geom s) (i_x i)) ->
     Inv (update_bias Rops c m i) (spec_dep c s i).
@@ -275,13 +297,7 @@ Section Refine.
     intros HI Ha Hbuf. pose proof HI as HI0. destruct HI as [Hnew Hold Hsub Hgeom Hgrel He Hg Hoo Hon Hng Hcl].
     unfold update_bias, spec_dep. rewrite eligible_deposit.
     destruct (eligible c i) eqn:El; [|exact HI0].
-    assert (Hw : nmul Rops (c_weight c) (if c_wt c then wt_scale Rops c (wt_energy_here Rops c m (i_x i)) else n1 Rops)
-                 = spec_height c s (i_x i)).
-    { unfold spec_height, wt_energy_here. destruct (c_wt c).
-      - rewrite (energy_spec m s (i_x i) HI0 Ha). unfold wt_scale. cbn [nmul n1 nexp ndiv nneg Rops].
-        f_equal. rewrite Rmult_1_l. f_equal. unfold Rdiv. ring.
-      - cbn [nmul n1 Rops]. ring. }
-    rewrite Hw. set (h := mkHill (i_it i) (spec_height c s (i_x i)) (i_x i)).
+    rewrite (deposit_weight m s i HI0 Ha). set (h := mkHill (i_it i) (spec_height c s i) (i_x i)).
     constructor; cbn [st_new st_old st_e st_g st_geom st_off_old st_off_new s_tab s_pend s_geom s_all].
     - rewrite Hnew. reflexivity.
     - exact Hold.
@@ -619,7 +635,7 @@ Qed.
 Lemma s_all_step c s i :
   s_all (spec_step c s i) =
   s_all s ++ (if eligible c i
-              then [mkHill (i_it i) (spec_height c (spec_expand c s (i_x i)) (i_x i)) (i_x i)] else []).
+              then [mkHill (i_it i) (spec_height c (spec_expand c s (i_x i)) i) (i_x i)] else []).
 Proof.
   unfold spec_step, spec_proj, spec_tabulate, spec_dep, s_all.
   destruct (eligible c i); destruct (i_it i mod c_gfreq c =? 0)%Z; destruct (c_use_grids c);
@@ -630,7 +646,7 @@ Lemma deposited_snoc c hist i :
   s_all (spec_run c (hist ++ [EStep i])) =
   s_all (spec_run c hist) ++
   (if eligible c i
-   then [mkHill (i_it i) (spec_height c (spec_expand c (spec_run c hist) (i_x i)) (i_x i)) (i_x i)] else []).
+   then [mkHill (i_it i) (spec_height c (spec_expand c (spec_run c hist) (i_x i)) i) (i_x i)] else []).
 Proof. rewrite spec_run_snoc. apply s_all_step. Qed.
 
 Lemma deposited_save c hist : s_all (spec_run c (hist ++ [ESave])) = s_all (spec_run c hist).
@@ -654,16 +670,17 @@ Fixpoint steps_of (hist : list eventR) : list inR :=
   end.
 
 (* without well-tempering: the deposited hills are one hill of height hillWeight per eligible step *)
-Lemma deposited_plain c hist : c_wt c = false ->
+Lemma deposited_plain c hist : c_wt c = false -> c_eb c = false ->
   s_all (spec_run c hist) = map (fun i => mkHill (i_it i) (c_weight c) (i_x i)) (filter (eligible c) (steps_of hist)).
 Proof.
-  intros W. unfold spec_run.
+  intros W B. unfold spec_run.
   assert (Hgen : forall s, s_all (fold_left (spec_event c) hist s) =
             s_all s ++ map (fun i => mkHill (i_it i) (c_weight c) (i_x i)) (filter (eligible c) (steps_of hist))).
   { induction hist as [|e hist IH]; intros s; cbn [fold_left].
     - cbn. rewrite app_nil_r. reflexivity.
     - destruct e as [i| |r]; cbn [spec_event steps_of filter].
-      + rewrite IH, s_all_step. unfold spec_height. rewrite W.
+      + rewrite IH, s_all_step. unfold spec_height, eb_factor. rewrite W, B.
+        replace (c_weight c * (1 * 1)) with (c_weight c) by ring.
         destruct (eligible c i); cbn [map]; rewrite <- app_assoc; reflexivity.
       + rewrite IH, s_all_save. reflexivity.
       + rewrite IH, s_all_restart. reflexivity. }
@@ -675,7 +692,7 @@ Lemma tabulated_snoc c hist i : c_use_grids c = true ->
   s_pend (spec_run c (hist ++ [EStep i])) = (if (i_it i mod c_gfreq c =? 0)%Z then [] else
      s_pend (spec_run c hist) ++
      (if eligible c i
-      then [mkHill (i_it i) (spec_height c (spec_expand c (spec_run c hist) (i_x i)) (i_x i)) (i_x i)] else [])).
+      then [mkHill (i_it i) (spec_height c (spec_expand c (spec_run c hist) (i_x i)) i) (i_x i)] else [])).
 Proof.
   intros G. rewrite spec_run_snoc. cbn [spec_event]. unfold spec_step, spec_proj, spec_tabulate, spec_dep. rewrite G.
   destruct (i_it i mod c_gfreq c =? 0)%Z; [reflexivity|].
@@ -703,7 +720,7 @@ Qed.
 (* keepHills does not occur in the specification *)
 Definition set_keep (c : cfgR) (b : bool) : cfgR :=
   mkCfg (c_vars c) (c_geom0 c) (c_weight c) (c_hill_width c) (c_freq c) (c_gfreq c) (c_use_grids c) b
-        (c_wt c) (c_bias_temp c) (c_kb c) (c_step_zero c).
+        (c_wt c) (c_bias_temp c) (c_kb c) (c_step_zero c) (c_eb c) (c_eb_equil c) (c_eb_target c).
 
 Lemma expand_geom_keep c b us : forall g x,
   expand_geom Rops (set_keep c b) us g x = expand_geom Rops c us g x.
@@ -755,4 +772,78 @@ Proof.
   induction hist as [|e hist IH]; intros s HF; cbn [hist_ok]; [exact I|].
   inversion HF as [|e' l' He Hl]; subst.
   destruct e as [i| |[g'|]]; cbn [plain_event next_base] in *; try contradiction; (split; [assumption|apply IH; exact Hl]).
+Qed.
+
+(* ================================================================== writeHillsTrajectory *)
+
+(* the hills written to the hills trajectory since the instance was created: one record per deposited hill, in
+   order, with the step, height and centre of the deposition *)
+Fixpoint traj_run (c : cfgR) (s : sstate) (tr : list hillR) (hist : list eventR) : list hillR :=
+  match hist with
+  | [] => tr
+  | e :: r =>
+      traj_run c (spec_event c s e)
+        (match e with
+         | EStep i => tr ++ (if eligible c i
+                             then [mkHill (i_it i) (spec_height c (spec_expand c s (i_x i)) i) (i_x i)] else [])
+         | ESave => tr
+         | ERestart _ => []
+         end) r
+  end.
+Definition spec_traj (c : cfgR) (hist : list eventR) : list hillR := traj_run c (mkS [] [] (c_geom0 c)) [] hist.
+
+Lemma traj_event c g0 m s e : cfg_ok c -> geom_ok c g0 -> Inv c g0 m s ->
+  match e with EStep i => adm c g0 (i_x i) | _ => True end ->
+  st_traj (apply_event Rops c m e) =
+  match e with
+  | EStep i => st_traj m ++ (if eligible c i
+                             then [mkHill (i_it i) (spec_height c (spec_expand c s (i_x i)) i) (i_x i)] else [])
+  | ESave => st_traj m
+  | ERestart _ => []
+  end.
+Proof.
+  intros Hok Hg0 HI Ha. destruct e as [i| |r]; cbn [apply_event].
+  - unfold step_state.
+    pose proof (expand_inv c Hok g0 Hg0 m s (i_x i) HI Ha) as H1.
+    set (m1 := update_grid_params Rops c m (i_x i)) in *.
+    assert (Ht1 : st_traj m1 = st_traj m).
+    { unfold m1, update_grid_params. destruct (c_use_grids c && existsb (@v_expand R) (c_vars c)); [|reflexivity].
+      destruct (geom_changed (st_geom m) (expand_geom Rops c (c_vars c) (st_geom m) (i_x i))); reflexivity. }
+    assert (Ht2 : st_traj (update_bias Rops c m1 i) =
+                  st_traj m ++ (if eligible c i
+                                then [mkHill (i_it i) (spec_height c (spec_expand c s (i_x i)) i) (i_x i)] else [])).
+    { unfold update_bias. rewrite (eligible_deposit c i). destruct (eligible c i).
+      - cbn [st_traj]. rewrite (deposit_weight c Hok g0 Hg0 m1 _ i H1 Ha), Ht1. reflexivity.
+      - rewrite app_nil_r. exact Ht1. }
+    destruct (c_use_grids c); [|exact Ht2].
+    unfold update_grid_data. destruct (i_it i mod c_gfreq c =? 0)%Z; [|exact Ht2].
+    unfold project. cbn [st_traj]. exact Ht2.
+  - unfold save_state. destruct (c_use_grids c); reflexivity.
+  - unfold restart_state, read_state, rebin_state. destruct r as [g'|]; destruct (c_use_grids c); reflexivity.
+Qed.
+
+Lemma traj_gen c : cfg_ok c -> forall hist g0 m s tr, geom_ok c g0 -> Inv c g0 m s -> hist_ok c g0 s hist ->
+  st_traj m = tr -> st_traj (fold_left (apply_event Rops c) hist m) = traj_run c s tr hist.
+Proof.
+  intros Hok. induction hist as [|e hist IH]; intros g0 m s tr Hg0 HI HH Ht; cbn [fold_left traj_run]; [exact Ht|].
+  cbn [hist_ok] in HH. destruct HH as [He Hr].
+  assert (Hnb : geom_ok c (next_base c g0 e)).
+  { apply (next_base_ok c g0 e s Hg0). destruct e as [i| |[g'|]]; try exact I. exact He. }
+  assert (HI' : Inv c (next_base c g0 e) (apply_event Rops c m e) (spec_event c s e)).
+  { destruct e as [i| |[g'|]].
+    - cbn [next_base]. apply (event_inv c Hok g0 Hg0 m s (EStep i) HI He).
+    - cbn [next_base]. apply (event_inv c Hok g0 Hg0 m s ESave HI I).
+    - apply (rebin_inv c g0 g' m s Hok Hg0 HI He).
+    - cbn [next_base]. apply (event_inv c Hok g0 Hg0 m s (ERestart None) HI I). }
+  apply (IH _ _ _ _ Hnb HI' Hr).
+  rewrite (traj_event c g0 m s e Hok Hg0 HI); [|destruct e as [i| |r]; try exact I; exact He].
+  destruct e as [i| |r]; rewrite ?Ht; reflexivity.
+Qed.
+
+Lemma trajectory_holds c hist : cfg_ok c -> history_ok c hist ->
+  st_traj (final_state Rops c hist) = spec_traj c hist.
+Proof.
+  intros Hok HH. unfold final_state, spec_traj.
+  apply (traj_gen c Hok hist (c_geom0 c)); [apply cfg_geom0_ok; exact Hok| |exact HH|reflexivity].
+  apply init_inv; [apply cfg_geom0_ok; exact Hok|reflexivity].
 Qed.
